@@ -509,8 +509,10 @@ Apply(op, St) ==
      ELSE SRes([St EXCEPT !.ctx[s] = Append(@, St.m[s])], "none", TRUE, NoRet)
   ELSE IF op.a = "Helper" THEN    \* add_pfba / add_moma / ... : only meaningful inside a context; from here to the
                                   \* exit of that context the objective and auxiliary rows/columns are the helper's
-     IF ~IsModel(St.m[s]) \/ Len(St.ctx[s]) = 0 THEN Skip(St)
-     ELSE SRes([St EXCEPT !.helper[s] = IF @ = 0 THEN Len(St.ctx[s]) ELSE @], "none", FALSE, NoRet)
+     \* (a second helper on top of an active one is a usage error: add_moma / add_room / add_pfba refuse it,
+     \* add_lp_feasibility / add_loopless poison the problem with duplicate names)
+     IF ~IsModel(St.m[s]) \/ Len(St.ctx[s]) = 0 \/ St.helper[s] # 0 THEN Skip(St)
+     ELSE SRes([St EXCEPT !.helper[s] = Len(St.ctx[s])], "none", FALSE, NoRet)
   ELSE IF op.a = "Exit" THEN
      IF ~IsModel(St.m[s]) \/ Len(St.ctx[s]) = 0 THEN Skip(St)
      ELSE IF St.taint[s] THEN
